@@ -249,3 +249,22 @@ def inlinable(program, cls_spec):
         elif names == ["self"] and not m.args.vararg and not m.args.kwarg:
             meths[m.name] = ([], e)
     return props, meths
+
+
+def send_scp_terms(program, T, call):
+    """Argument terms of ``self._send_scp(x, y, p, cmd, arg1, ...)`` under the
+    names of SCPConnection.send_scp's formals (which receives them after the
+    buffer size)."""
+    conn = program.get("rig.machine_control.scp_connection:"
+                       "SCPConnection.send_scp")
+    names = formals(conn)[2:]          # self, buffer_size, x, y, p, cmd ...
+    n = T.cfg.node_containing(call)
+    out = {}
+    for nm, a in zip(names, call.args):
+        if isinstance(a, ast.Starred):
+            break
+        out[nm] = T.term(a, n)
+    for k in call.keywords:
+        if k.arg:
+            out[k.arg] = T.term(k.value, n)
+    return out
